@@ -213,6 +213,13 @@ def oracle(case) -> Result:
         if c is None:
             continue
         if name == 'probe':
+            # the probing function returns 1 whatever it is shown: under a one-hot assignment the
+            # coefficients of every decision sum to one over the options that are evaluated, so
+            # the metric is the number of layers (an option left out of the sum shows up here)
+            if abs(c - len(layers)) > 1e-4 * max(1, len(layers)):
+                res.bad('probe-cost-is-not-one-per-layer', mps=c, layers=len(layers),
+                        per_channel=case['per_channel'], pruned_channels=n0_total,
+                        mode=case['mode'])
             # what is each layer's cost function shown?
             for nid, L in layers.items():
                 m = L['mod']
